@@ -242,6 +242,10 @@ def run(R):
             if not (k.isdigit() and int(k) in bynum and str(int(k)) == k):
                 R.check(v == 'Unknown', 'C04.R1', 'from_bytes:extra:%s' % k, site(b), 'bytes %r map to %s but are not a spec row' % (k, v))
         R.floor('C04.R1', 'from_bytes rows', len(found), 17)
+        # the accepted language is exactly the 17 canonical spellings: an integer parser is not an equivalent reader
+        ip = [(m_, bb_) for m_ in family(tonic, b) for bb_, t_ in m_.calls() if t_.get('name') in ('parse', 'from_str', 'from_str_radix', 'from_ascii') and re.search(r'core::str|core::num|std::str|FromStr', (t_.get('fn') or '') + ' ' + (t_.get('resolved') or ''))]
+        R.check(not ip, 'C04.R1', 'from_bytes:no-integer-parse', site(ip[0][0], ip[0][1]) if ip else site(b),
+                'Code::from_bytes reads grpc-status with an integer parser (%d site(s)): str::parse::<i32> also accepts "+7", "07", "00" — malformed codes that must read as Unknown (a trailer `grpc-status: 00` would count as success)' % len(ip))
 
         # from_i32
         b = tonic.body('status::Code::from_i32')
